@@ -284,6 +284,8 @@ pub fn run_check(def: &'static CheckDef, thorough: bool, seed: u64, budget_s: f6
             "state_tuple_measure": "distinct (node, protocol state, queue-occupancy flags) tuples observed after polls, scenario-defined",
             "components_real": def.real,
             "components_stub": def.stub,
+            "build_variant": crate::core::build_variant(),
+            "wide_variant_run": std::env::var("VERIF_WIDE_SUMMARY").unwrap_or_else(|_| "not part of this tier".to_string()),
             "build_profile": if cfg!(debug_assertions) { "release + debug-assertions + overflow-checks" } else { "release" },
             "known_findings_reproduced": known_hits.iter().map(|(k, (n, _))| json!({"signature": k, "runs": n})).collect::<Vec<_>>(),
             "replay": replay_path,
